@@ -1,6 +1,7 @@
 #include "oracles.hpp"
 
 #include <algorithm>
+#include <cmath>
 
 namespace tbfsim {
 
@@ -78,6 +79,41 @@ void compareViews(Ctx& ctx, const TreeView& got, const TreeView& expect, unsigne
         size_t off = 0;
         while (off < g.bytes && g.ptr[off] == e.ptr[off]) ++off;
         ctx.addViolation(cls, bufName(g.kind), what + ": first difference at " + locate(got, i, off));
+    }
+}
+
+static bool arraysClose(const unsigned char* a, const unsigned char* b, size_t bytes, double tol, double& worst) {
+    const size_t n = bytes / sizeof(double);
+    double maxabs = 0;
+    for (size_t i = 0; i < n; ++i) { double e; std::memcpy(&e, b + i * sizeof(double), sizeof e); if (e == e && std::fabs(e) > maxabs) maxabs = std::fabs(e); }
+    bool ok = true;
+    for (size_t i = 0; i < n; ++i) {
+        double g, e;
+        std::memcpy(&g, a + i * sizeof(double), sizeof g);
+        std::memcpy(&e, b + i * sizeof(double), sizeof e);
+        if (g != g || e != e) { if (std::memcmp(&g, &e, sizeof g) != 0) { ok = false; worst = 1e300; } continue; }
+        const double err = std::fabs(g - e);
+        if (err > tol * maxabs + 1e-300) { ok = false; const double rel = maxabs > 0 ? err / maxabs : err; if (rel > worst) worst = rel; }
+    }
+    return ok;
+}
+
+void compareViewsTol(Ctx& ctx, const TreeView& got, const TreeView& expect, double tol, const std::string& cls, const std::string& what) {
+    if (got.cells.size() != expect.cells.size() || got.leaves.size() != expect.leaves.size()) { ctx.addViolation(cls, "structure", what + ": different number of cells or leaves"); return; }
+    for (size_t i = 0; i < got.cells.size(); ++i) {
+        const CellRec& g = got.cells[i]; const CellRec& e = expect.cells[i];
+        if (g.level != e.level || g.coord != e.coord || g.multBytes != e.multBytes || g.localBytes != e.localBytes) { ctx.addViolation(cls, "structure", what + ": cell lists differ"); return; }
+        double worst = 0;
+        if (g.multBytes && !arraysClose(g.mult, e.mult, g.multBytes, tol, worst)) ctx.addViolation(cls, "multipoles", what + ": multipole of cell L" + std::to_string(g.level) + " differs beyond rounding (relative error " + std::to_string(worst) + ")");
+        if (g.localBytes && !arraysClose(g.local, e.local, g.localBytes, tol, worst)) ctx.addViolation(cls, "locals", what + ": local of cell L" + std::to_string(g.level) + " differs beyond rounding (relative error " + std::to_string(worst) + ")");
+    }
+    for (size_t i = 0; i < got.leaves.size(); ++i) {
+        const LeafRec& g = got.leaves[i]; const LeafRec& e = expect.leaves[i];
+        if (g.n != e.n || g.coord != e.coord || g.rhs.size() != e.rhs.size()) { ctx.addViolation(cls, "structure", what + ": leaf lists differ"); return; }
+        for (size_t k = 0; k < g.rhs.size(); ++k) {
+            double worst = 0;
+            if (g.rhs[k] && !arraysClose(g.rhs[k], e.rhs[k], size_t(g.n) * sizeof(double), tol, worst)) { ctx.addViolation(cls, "particle-rhs", what + ": result row " + std::to_string(k) + " of a leaf differs beyond rounding (relative error " + std::to_string(worst) + ")"); break; }
+        }
     }
 }
 
